@@ -192,7 +192,7 @@ static void port_values() {
         for (const char *pre : {"", "0", "000", " ", "+", "-"}) for (const char *post : {"", " ", "a", "."}) {
             std::string port = std::string(pre) + digits + post;
             if ((idx++ % A.nshards) != (uint64_t)A.shard) continue;
-            for (const char *tmpl : {"http://h:%s/", "http://u:p@h.example:%s/p?q#f", "http://[::1]:%s/"}) {
+            for (const char *tmpl : {"http://h:%s/", "http://u:p@h.example:%s/p?q#f", "http://[::1]:%s/", "http://u@[::1]:%s/index.html?a=b", "http://u:p@[fe80::1]:%s"}) {
                 std::string t = tmpl; t.replace(t.find("%s"), 2, port);
                 if (!run_case(t, 17)) return;
                 g_stats.cls("port_value_targets");
@@ -201,9 +201,64 @@ static void port_values() {
                     if (!r.first.empty()) { g_stats.fail("C13:" + r.first, case_text("public", t), r.second); return; }
                 }
             }
+            if (port.find(' ') == std::string::npos) for (const char *h : {"[::1]:", "[fe80::a:b]:"}) { std::string t = h + port; bool got, auth; auto r = check_public(t, true, got, auth); g_stats.evaluations++; if (!r.first.empty()) { g_stats.fail("C13:" + r.first, case_text("connect", t), r.second); return; } }
             if (port.find(' ') == std::string::npos) { std::string t = "h.example:" + port; bool got, auth; auto r = check_public(t, true, got, auth); g_stats.evaluations++; if (!r.first.empty()) { g_stats.fail("C13:" + r.first, case_text("connect", t), r.second); return; } }
         }
     }
+}
+
+// reference splitter for the structured family only: scheme "://" [userinfo "@"] host [":" port] [path] ["?" query] ["#" fragment], host possibly bracketed,
+// no '@' / '/' / '?' / '#' inside userinfo, host or port. Used to replay structured failures (and cross-checked against the assembled AST while generating).
+static bool ref_split(const std::string &t, Split &e) {
+    for (int i = 0; i < 8; i++) { e.has[i] = false; e.v[i].clear(); }
+    size_t sp = t.find("://"); if (sp == std::string::npos) return false; e.has[0] = true; e.v[0] = t.substr(0, sp);
+    size_t a = sp + 3, ae = t.find_first_of("/?#", a); if (ae == std::string::npos) ae = t.size(); std::string auth = t.substr(a, ae - a);
+    size_t at = auth.find('@'); if (at != std::string::npos) { std::string ui = auth.substr(0, at); auth = auth.substr(at + 1); size_t c = ui.find(':'); e.has[1] = true; e.v[1] = ui.substr(0, c); if (c != std::string::npos) { e.has[2] = true; e.v[2] = ui.substr(c + 1); } }
+    size_t hp; if (!auth.empty() && auth[0] == '[') { size_t rb = auth.find(']'); if (rb == std::string::npos) return false; hp = rb + 1; } else { hp = auth.find(':'); if (hp == std::string::npos) hp = auth.size(); }
+    e.has[3] = true; e.v[3] = auth.substr(0, hp); if (hp < auth.size()) { if (auth[hp] != ':') return false; e.has[4] = true; e.v[4] = auth.substr(hp + 1); }
+    size_t h = t.find('#', ae), q = t.find('?', ae); if (q != std::string::npos && h != std::string::npos && q > h) q = std::string::npos;
+    size_t pe = std::min(q == std::string::npos ? t.size() : q, h == std::string::npos ? t.size() : h); if (pe > ae) { e.has[5] = true; e.v[5] = t.substr(ae, pe - ae); }
+    if (q != std::string::npos) { e.has[6] = true; e.v[6] = t.substr(q + 1, (h == std::string::npos ? t.size() : h) - q - 1); }
+    if (h != std::string::npos) { e.has[7] = true; e.v[7] = t.substr(h + 1); }
+    return true;
+}
+static std::pair<std::string, std::string> check_structured(const std::string &t, const Split &e) {
+    Split d; if (!split_direct(t, d)) return {"split_failed", "split failed for \"" + vc::esc(t) + "\""};
+    for (int i = 0; i < 8; i++) { bool eh = e.has[i], dh = d.has[i]; if (i == 5 && !eh) dh = dh && !d.v[5].empty(); // an absent path may be reported as absent or empty
+        if (eh != dh || (eh && e.v[i] != d.v[i])) return {std::string("component_differs:") + NAMES[i], "target \"" + vc::esc(t) + "\": " + NAMES[i] + " reported " + (d.has[i] ? "\"" + vc::esc(d.v[i]) + "\"" : std::string("(absent)")) + ", assembled from " + (e.has[i] ? "\"" + vc::esc(e.v[i]) + "\"" : std::string("(absent)"))}; }
+    long exp = e.has[4] ? ref_port(e.v[4]) : -1; if (d.port_number != exp) return {"port_number", "port text \"" + e.v[4] + "\": port_number " + std::to_string(d.port_number) + ", expected " + std::to_string(exp)};
+    if (e.has[4] && (exp == -1) != d.hostu_invalid) return {"port_invalid_flag", "port text \"" + e.v[4] + "\": HTP_HOSTU_INVALID " + std::to_string(d.hostu_invalid)};
+    return {"", ""};
+}
+static std::pair<std::string, std::string> check_structured_connect(const std::string &t, bool &got) {
+    Split pub; got = false; via_public(t, true, pub, got); if (!got) return {"", ""};
+    size_t c = t.rfind(':'); std::string h = t.substr(0, c), po = t.substr(c + 1);
+    std::string hl = h; for (auto &ch : hl) ch = (char)tolower((unsigned char)ch); std::string rl = pub.v[3]; for (auto &ch : rl) ch = (char)tolower((unsigned char)ch);
+    if (rl != hl || !pub.has[4] || pub.v[4] != po) return {"connect_component_differs", "CONNECT \"" + t + "\": host \"" + vc::esc(pub.v[3]) + "\" port " + (pub.has[4] ? "\"" + vc::esc(pub.v[4]) + "\"" : std::string("(absent)"))};
+    long exp = ref_port(po); if (pub.port_number != exp) return {"port_number", "CONNECT port text \"" + po + "\": port_number " + std::to_string(pub.port_number) + ", expected " + std::to_string(exp)};
+    return {"", ""};
+}
+// structured targets: the components are chosen first (an AST), the target is assembled from them, and every reported raw component must be exactly the chosen one
+// (the re-join predicate alone accepts any split that happens to re-join; this one pins WHERE the target is split). Full product, through the direct and the public route.
+static void structured() {
+    static const std::vector<std::string> SCH = {"http", "https", "ftp", "a+b.c"}, UI = {"", "u", "u:p", "user.name:pa:ss"}, HOST = {"h.example", "H", "10.0.0.1", "[::1]", "[2001:db8::1]", "a-b.c"},
+        PORT = {"-", "80", "8080", "65535", "1", "0", "65536", "99999", "4294967376", "8x"}, PATH = {"", "/", "/a/b", "/index.html;p=1", "/a:b@c"}, QRY = {"-", "a=b", "a=b&c=d?x", ""}, FRG = {"-", "f", "f?x#y", ""};
+    uint64_t idx = 0;
+    for (auto &sc : SCH) for (auto &ui : UI) for (auto &h : HOST) for (auto &po : PORT) for (auto &pa : PATH) for (auto &q : QRY) for (auto &f : FRG) {
+        if ((idx++ % (uint64_t)A.nshards) != (uint64_t)A.shard) continue;
+        std::string t = sc + "://" + (ui.empty() ? "" : ui + "@") + h + (po == "-" ? "" : ":" + po) + pa + (q == "-" ? "" : "?" + q) + (f == "-" ? "" : "#" + f);
+        Split e; for (int i = 0; i < 8; i++) e.has[i] = false;
+        e.has[0] = true; e.v[0] = sc; if (!ui.empty()) { size_t c = ui.find(':'); e.has[1] = true; e.v[1] = ui.substr(0, c); if (c != std::string::npos) { e.has[2] = true; e.v[2] = ui.substr(c + 1); } }
+        e.has[3] = true; e.v[3] = h; if (po != "-") { e.has[4] = true; e.v[4] = po; } if (!pa.empty()) { e.has[5] = true; e.v[5] = pa; } if (q != "-") { e.has[6] = true; e.v[6] = q; } if (f != "-") { e.has[7] = true; e.v[7] = f; }
+        g_stats.evaluations++; g_stats.cls("structured_targets"); g_stats.nt(vc::fnv1a(t));
+        { Split rs; bool ok = ref_split(t, rs); for (int i = 0; ok && i < 8; i++) if (rs.has[i] != e.has[i] || rs.v[i] != e.v[i]) ok = false; if (!ok) { g_stats.notes.push_back("structured: reference splitter disagrees with the assembled components for \"" + vc::esc(t) + "\" (harness defect)"); g_stats.inconclusive = true; return; } }
+        { auto r = check_structured(t, e); if (!r.first.empty()) { std::string sig = "C13:" + r.first; if (A.is_known(sig)) g_stats.attributed[sig]++; else { g_stats.fail(sig, case_text("structured", t), r.second); return; } } }
+        if ((idx % 7) == 0) { bool got, auth; auto r = check_public(t, false, got, auth); if (!r.first.empty()) { g_stats.fail("C13:" + r.first, case_text("public", t), r.second); return; } }
+        if ((idx % 40009) == 3) g_stats.sample("structured target \"" + vc::esc(t) + "\"");
+    }
+    // authority form (CONNECT): host and port text exactly as assembled
+    for (auto &h : HOST) for (auto &po : PORT) { if (po == "-") continue; if ((idx++ % (uint64_t)A.nshards) != (uint64_t)A.shard) continue; std::string t = h + ":" + po; bool got; g_stats.evaluations++; g_stats.cls("structured_connect_targets");
+        auto r = check_structured_connect(t, got); if (!r.first.empty()) { g_stats.fail("C13:" + r.first, case_text("sconnect", t), r.second); return; } }
 }
 
 static void random_bytes() {
@@ -231,6 +286,8 @@ static int replay(const std::string &path) {
         if (r.first.empty()) { printf("REPLAY-OK\n"); return 0; }
         printf("REPLAY-FAIL sig=C13:%s\n%s\n", r.first.c_str(), r.second.c_str()); return 1;
     }
+    if (std::string(kind) == "structured") { Split e; if (!ref_split(t, e)) { printf("REPLAY-FAIL sig=C13:bad_replay_file\n"); return 1; } auto r = check_structured(t, e); if (r.first.empty()) { printf("REPLAY-OK\n"); return 0; } printf("REPLAY-FAIL sig=C13:%s\n%s\n", r.first.c_str(), r.second.c_str()); return 1; }
+    if (std::string(kind) == "sconnect") { bool g; auto r = check_structured_connect(t, g); if (r.first.empty()) { printf("REPLAY-OK\n"); return 0; } printf("REPLAY-FAIL sig=C13:%s\n%s\n", r.first.c_str(), r.second.c_str()); return 1; }
     bool got, auth; auto r = check_public(t, std::string(kind) == "connect", got, auth);
     if (r.first.empty()) { printf("REPLAY-OK\n"); return 0; }
     printf("REPLAY-FAIL sig=C13:%s\n%s\n", r.first.c_str(), r.second.c_str()); return 1;
@@ -246,6 +303,7 @@ int main(int argc, char **argv) {
     else {
         g_stats.init(A); g_stats.max_samples = 8; vc::install_crash_capture();
         port_values();
+        if (g_stats.failures.empty()) structured();
         if (g_stats.failures.empty()) exhaustive();
         if (g_stats.failures.empty()) random_bytes();
         if (g_stats.failures.empty()) public_route();
